@@ -59,6 +59,12 @@ Proof.
   destruct p; simpl; [lia|]. rewrite IH by lia. lia.
 Qed.
 
+Lemma pstarts_length lens s : length (pstarts lens s) = length lens.
+Proof. revert s; induction lens as [|n r IH]; intros s; simpl; auto. Qed.
+
+Lemma map_const_seq {X} (x : X) s n : map (fun _ => x) (seq s n) = repeat x n.
+Proof. revert s; induction n as [|n IH]; intros s; simpl; auto. f_equal. apply IH. Qed.
+
 Lemma upd_app_pad {X} (out : list X) (e pad : X) n :
   0 < n -> upd (length out) e (out ++ repeat pad n) = (out ++ [e]) ++ repeat pad (n - 1).
 Proof.
@@ -236,7 +242,9 @@ Proof.
     set (g' := (S (pj g), @nil nat, pout g ++ [ppend g ++ [src]])).
     assert (Ng : forall q, nth q (upd p g' G) g0 = if q =? p then g' else nth q G g0).
     { intros q. rewrite nth_upd. destruct (Nat.eqb_spec p q) as [->|N].
-      - rewrite Nat.eqb_refl. rewrite LG. apply Nat.ltb_lt in Hp. rewrite Hp. reflexivity.
+      - rewrite Nat.eqb_refl. cbn [andb].
+        match goal with |- (if ?c then _ else _) = _ => destruct c eqn:Eb end; [reflexivity|].
+        apply Nat.ltb_ge in Eb. unfold pst in *. lia.
       - destruct (Nat.eqb_spec q p); [congruence|reflexivity]. }
     split.
     + unfold conc. f_equal.
@@ -254,17 +262,20 @@ Proof.
         replace (length bz - (length (snd g) + 1)) with (length bz - length (snd g) - 1) by lia. reflexivity.
     + split; [rewrite upd_length; exact LG|]. intros q Hq. cbv zeta. rewrite Ng.
       destruct (Nat.eqb_spec q p) as [->|N].
-      * fold bz. unfold g', pj, ppend, pout. cbn [fst snd]. apply Nat.eqb_eq in Full. rewrite app_length in *. simpl length in *.
-        split; [unfold pout in I1; lia|]. split; [lia|]. split.
+      * fold bz. apply Nat.eqb_eq in Full. rewrite app_length in Full. simpl length in Full.
+        unfold g'. unfold pj, ppend, pout in *. cbn [fst snd]. rewrite app_length. simpl length.
+        split; [lia|]. split; [lia|]. split.
         -- intros H. assert (In (nth (S (fst (fst g))) bz 0) bz) by (apply nth_In; exact H). specialize (Pos p _ H0). lia.
-        -- rewrite sum_firstn_S. unfold pj, ppend in *. lia.
+        -- rewrite sum_firstn_S. lia.
       * destruct (I q Hq) as (A1 & A2 & A3 & A4). simpl map in A4. rewrite count_eq_cons in A4.
         destruct (Nat.eqb_spec q p); [congruence|]. repeat split; auto.
   - (* still filling *)
     set (g' := (pj g, ppend g ++ [src], pout g)).
     assert (Ng : forall q, nth q (upd p g' G) g0 = if q =? p then g' else nth q G g0).
     { intros q. rewrite nth_upd. destruct (Nat.eqb_spec p q) as [->|N].
-      - rewrite Nat.eqb_refl. rewrite LG. apply Nat.ltb_lt in Hp. rewrite Hp. reflexivity.
+      - rewrite Nat.eqb_refl. cbn [andb].
+        match goal with |- (if ?c then _ else _) = _ => destruct c eqn:Eb end; [reflexivity|].
+        apply Nat.ltb_ge in Eb. unfold pst in *. lia.
       - destruct (Nat.eqb_spec q p); [congruence|reflexivity]. }
     split.
     + unfold conc. f_equal.
@@ -273,8 +284,9 @@ Proof.
       * cbn [newset]. f_equal. apply map_ext. intros q. unfold region. rewrite Ng. destruct (Nat.eqb_spec q p) as [->|]; reflexivity.
     + split; [rewrite upd_length; exact LG|]. intros q Hq. cbv zeta. rewrite Ng.
       destruct (Nat.eqb_spec q p) as [->|N].
-      * fold bz. unfold g', pj, ppend, pout. cbn [fst snd]. apply Nat.eqb_neq in Full. rewrite app_length in *. simpl length in *.
-        unfold pj, ppend, pout in *. repeat split; try lia. 
+      * fold bz. apply Nat.eqb_neq in Full. rewrite app_length in Full. simpl length in Full.
+        unfold g'. unfold pj, ppend, pout in *. cbn [fst snd]. rewrite app_length. simpl length.
+        repeat split; try lia.
       * destruct (I q Hq) as (A1 & A2 & A3 & A4). simpl map in A4. rewrite count_eq_cons in A4.
         destruct (Nat.eqb_spec q p); [congruence|]. repeat split; auto.
 Qed.
@@ -282,7 +294,7 @@ Qed.
 Lemma cv_loop_conc rest : forall G, ginv G rest -> (forall sp, In sp rest -> snd sp < k) ->
   fold_left (cv_step bs) rest (conc G) = conc (fold_left (gstep bszs) rest G).
 Proof.
-  induction rest as [|[src p] r IH]; intros G I B; simpl; auto.
+  induction rest as [|[src p] r IH]; intros G I B; cbn [fold_left]; auto.
   destruct (cv_step_conc G r src p I (B (src, p) (or_introl eq_refl))) as [E I'].
   rewrite E. apply IH; auto. intros sp Hs. apply B. right. exact Hs.
 Qed.
@@ -301,9 +313,9 @@ Proof.
   assert (E0 : mkLoop starts (repeat [] k) (repeat [] (length bs)) = conc G0).
   { unfold conc. f_equal.
     - rewrite <- (map_nth_seq starts 0) at 1. assert (length starts = k) as ->.
-      { unfold starts. clear. generalize 0. induction bszs as [|b t IH]; intros s; simpl; auto. }
+      { unfold starts, k. rewrite pstarts_length, map_length. reflexivity. }
       apply map_ext. intros q. rewrite N0. unfold pj, g0. simpl. lia.
-    - clear - N0. induction (seq 0 k) as [|q t IH]; simpl; auto. f_equal. rewrite N0. reflexivity.
+    - rewrite (map_ext _ (fun _ => @nil nat)) by (intros q; rewrite N0; reflexivity). symmetry. apply map_const_seq.
     - unfold bs. rewrite length_concat_sum. rewrite <- concat_repeat_nil. f_equal.
       rewrite <- (map_nth_seq (map (@length nat) bszs) 0), map_length, map_map. fold k. apply map_ext_in.
       intros q Hq. apply in_seq in Hq. unfold region. rewrite N0. unfold pout, g0. simpl. rewrite Nat.sub_0_r. f_equal.
@@ -315,7 +327,9 @@ Proof.
               (length (nth p bszs []), [], chunk (nth p bszs []) (map fst (filter (fun sp => snd sp =? p) steps)))).
     { intros p Hp. unfold Gf. rewrite gstep_project by (unfold G0; rewrite repeat_length; exact Hp). rewrite N0.
       unfold g0. rewrite (fill_chunk (nth p bszs []) (Pos p)); simpl; auto; try lia.
-      rewrite <- count_eq_filter_snd. apply C. exact Hp. }
+      - intros H. destruct (nth p bszs []) as [|s0 t0] eqn:E; simpl in *; [lia|].
+        assert (In s0 (nth p bszs [])) by (rewrite E; left; reflexivity). specialize (Pos p s0 H0). lia.
+      - rewrite <- count_eq_filter_snd. apply C. exact Hp. }
     unfold conc. cbn [newset].
     rewrite (map_ext_in (region Gf) (fun p => chunk (nth p bszs []) (map fst (filter (fun sp => snd sp =? p) steps)))).
     + rewrite (map_ext_in _ (fun p => (fun bl => chunk (fst bl) (snd bl)) (nth p bszs [], map fst (filter (fun sp => snd sp =? p) steps))))
@@ -338,3 +352,296 @@ Proof.
 Qed.
 
 End Loop.
+
+(* ------------------------------------------------------------------------------------------------ *)
+(* detail::complement: iota, sort, std::set_difference = the filter of the model                      *)
+Lemma existsb_eqb_In x l : existsb (Nat.eqb x) l = true <-> In x l.
+Proof.
+  rewrite existsb_exists. split.
+  - intros [y [Hy E]]. apply Nat.eqb_eq in E. subst. exact Hy.
+  - intros H. exists x. split; auto. apply Nat.eqb_refl.
+Qed.
+
+Lemma insert_sorted_In x l y : In y (insert_sorted x l) <-> y = x \/ In y l.
+Proof.
+  induction l as [|z r IH]; simpl; [intuition|].
+  destruct (x <=? z); simpl; [intuition|]. rewrite IH. intuition.
+Qed.
+
+Lemma sort_nat_In l y : In y (sort_nat l) <-> In y l.
+Proof. induction l as [|x r IH]; simpl; [tauto|]. rewrite insert_sorted_In, IH. intuition. Qed.
+
+Lemma insert_sorted_sorted x l : StronglySorted le l -> StronglySorted le (insert_sorted x l).
+Proof.
+  induction 1 as [|z r S IH F]; simpl; [repeat constructor|].
+  destruct (Nat.leb_spec x z).
+  - constructor; [constructor; auto|]. constructor; auto. eapply Forall_impl; [|exact F]. intros; lia.
+  - constructor; auto. apply Forall_forall. intros y Hy. apply insert_sorted_In in Hy. destruct Hy as [->|Hy]; [lia|].
+    rewrite Forall_forall in F. auto.
+Qed.
+
+Lemma sort_nat_sorted l : StronglySorted le (sort_nat l).
+Proof. induction l; simpl; [constructor|apply insert_sorted_sorted; auto]. Qed.
+
+Lemma sort_nat_length l : length (sort_nat l) = length l.
+Proof.
+  assert (G : forall x r, length (insert_sorted x r) = S (length r)).
+  { intros x r. induction r as [|z t IH]; simpl; auto. destruct (x <=? z); simpl; auto. }
+  induction l; simpl; auto. rewrite G. auto.
+Qed.
+
+Lemma seq_strongly_sorted s n : StronglySorted lt (seq s n).
+Proof.
+  revert s; induction n as [|n IH]; intros s; simpl; constructor; auto.
+  apply Forall_forall. intros y Hy. apply in_seq in Hy. lia.
+Qed.
+
+Lemma set_difference_spec fuel : forall a b,
+  length a + length b <= fuel -> StronglySorted lt a -> StronglySorted le b ->
+  set_difference fuel a b = filter (fun x => negb (existsb (Nat.eqb x) b)) a.
+Proof.
+  induction fuel as [|f IH]; intros a b L Sa Sb.
+  - destruct a; simpl in *; [reflexivity|lia].
+  - destruct a as [|x a']; [reflexivity|]. destruct b as [|y b'].
+    + simpl. f_equal. symmetry. clear. induction a'; simpl; auto. f_equal. auto.
+    + inversion Sa as [|? ? Sa' Fa]; subst. inversion Sb as [|? ? Sb' Fb]; subst.
+      rewrite Forall_forall in Fa, Fb. cbn [set_difference].
+      destruct (Nat.ltb_spec x y) as [Lxy|Gxy].
+      * (* x is below everything in b: kept *)
+        rewrite IH by (auto; simpl in *; lia).
+        assert (Nx : existsb (Nat.eqb x) (y :: b') = false).
+        { apply not_true_is_false. intros H. apply existsb_eqb_In in H. destruct H as [->|H]; [lia|]. specialize (Fb _ H). lia. }
+        cbn [filter]. rewrite Nx. reflexivity.
+      * destruct (Nat.ltb_spec y x) as [Lyx|Gyx].
+        -- (* y is below everything in a: dropped from b *)
+           rewrite IH by (auto; simpl in *; lia). apply filter_ext_in. intros z Hz. f_equal. cbn [existsb].
+           assert (z <> y) by (destruct Hz as [<-|Hz]; [lia|specialize (Fa _ Hz); lia]).
+           destruct (Nat.eqb_spec z y); [congruence|reflexivity].
+        -- assert (x = y) by lia. subst y.
+           rewrite IH by (auto; simpl in *; lia). cbn [filter existsb]. rewrite Nat.eqb_refl. cbn [orb negb].
+           apply filter_ext_in. intros z Hz. f_equal. specialize (Fa _ Hz).
+           destruct (Nat.eqb_spec z x); [lia|reflexivity].
+Qed.
+
+Theorem complement_sd_correct idx n : complement_sd idx n = complement idx n.
+Proof.
+  unfold complement_sd, complement. rewrite set_difference_spec.
+  - apply filter_ext. intros x. f_equal.
+    destruct (existsb (Nat.eqb x) (sort_nat idx)) eqn:E1; destruct (existsb (Nat.eqb x) idx) eqn:E2; auto.
+    + apply (proj1 (existsb_eqb_In x (sort_nat idx))) in E1. apply (proj1 (sort_nat_In idx x)) in E1. apply (proj2 (existsb_eqb_In x idx)) in E1. congruence.
+    + apply (proj1 (existsb_eqb_In x idx)) in E2. apply (proj2 (sort_nat_In idx x)) in E2. apply (proj2 (existsb_eqb_In x (sort_nat idx))) in E2. congruence.
+  - rewrite seq_length, sort_nat_length. lia.
+  - apply seq_strongly_sorted.
+  - apply sort_nat_sorted.
+Qed.
+
+(* ------------------------------------------------------------------------------------------------ *)
+(* the step sequences of the three constructors name, for every fold, the positions of the model's gather order *)
+Lemma filter_map_swap {X Y} (g : X -> Y) (f : Y -> bool) l : filter f (map g l) = map g (filter (fun x => f (g x)) l).
+Proof. induction l as [|x r IH]; simpl; auto. destruct (f (g x)); simpl; rewrite IH; reflexivity. Qed.
+
+Lemma steps_of_fold (a b : list nat) p : length a = length b ->
+  map fst (filter (fun sp => snd sp =? p) (combine a b)) =
+  map (fun t => nth t a 0) (filter (fun t => nth t b 0 =? p) (seq 0 (length b))).
+Proof.
+  revert b; induction a as [|x a IH]; intros [|y b] L; simpl in L; try discriminate; [reflexivity|].
+  cbn [combine filter snd length]. rewrite <- cons_seq, <- seq_shift. cbn [filter nth].
+  specialize (IH b ltac:(lia)).
+  assert (T : map (fun t => nth t (x :: a) 0) (filter (fun t => nth t (y :: b) 0 =? p) (map S (seq 0 (length b))))
+              = map fst (filter (fun sp => snd sp =? p) (combine a b))).
+  { rewrite filter_map_swap, map_map. cbn [nth]. symmetry. exact IH. }
+  cbn [nth] in T. destruct (y =? p); cbn [map fst]; rewrite T; reflexivity.
+Qed.
+
+Lemma map_nth_seq_id n l : (forall t, In t l -> t < n) -> map (fun t => nth t (seq 0 n) 0) l = l.
+Proof.
+  intros H. rewrite <- (map_id l) at 2. apply map_ext_in. intros t Ht. rewrite seq_nth by auto. reflexivity.
+Qed.
+
+Lemma map_flat_map {X Y Z} (g : Y -> Z) (H : X -> list Y) l : map g (flat_map H l) = flat_map (fun p => map g (H p)) l.
+Proof. induction l as [|x r IH]; simpl; auto. rewrite map_app, IH. reflexivity. Qed.
+
+Lemma order_indexed idx k :
+  flat_map (fun p => map fst (filter (fun sp => snd sp =? p) (steps_indexed idx))) (seq 0 k) = indexed_order idx k.
+Proof.
+  unfold indexed_order, steps_indexed. apply flat_map_ext. intros p.
+  rewrite steps_of_fold by apply seq_length. apply map_nth_seq_id.
+  intros t Ht. apply filter_In in Ht. destruct Ht as [Ht _]. apply in_seq in Ht. lia.
+Qed.
+
+Lemma order_fully first second k : length first = length second ->
+  flat_map (fun p => map fst (filter (fun sp => snd sp =? p) (steps_fully first second))) (seq 0 k)
+  = map (fun t => nth t first 0) (indexed_order second k).
+Proof.
+  intros L. unfold indexed_order, steps_fully. rewrite map_flat_map.
+  apply flat_map_ext. intros p. apply steps_of_fold. exact L.
+Qed.
+
+Lemma order_balanced members k :
+  flat_map (fun p => map fst (filter (fun sp => snd sp =? p) (steps_balanced members k))) (seq 0 k)
+  = dealt_order (concat members) k.
+Proof.
+  unfold dealt_order, steps_balanced. apply flat_map_ext. intros p.
+  rewrite steps_of_fold by (rewrite map_length, seq_length; reflexivity).
+  rewrite map_length, seq_length. f_equal. apply filter_ext_in. intros t Ht. apply in_seq in Ht.
+  rewrite (nth_indep _ 0 ((fun t => t mod k) 0)) by (rewrite map_length, seq_length; lia).
+  rewrite (map_nth (fun t => t mod k)), seq_nth by lia. reflexivity.
+Qed.
+
+(* ------------------------------------------------------------------------------------------------ *)
+(* subBatch through the view, the new set, the constructors                                            *)
+Section Poly.
+Context {A : Type}.
+Variable dflt : A.
+
+Lemma all_some_map_some {X Y} (f : X -> Y) l : all_some (map (fun x => Some (f x)) l) = Some (map f l).
+Proof. induction l as [|x r IH]; simpl; auto. rewrite IH. reflexivity. Qed.
+
+(* subBatch(view, indices) holds the elements at the given positions of the element sequence, in the given order *)
+Theorem sub_batch_spec (d : @data A) idxs :
+  forallb (fun i => i <? nelems d) idxs = true ->
+  sub_batch d idxs = Some (map (fun i => nth i (elems d) dflt) idxs).
+Proof.
+  intros F. unfold sub_batch, view_subset. rewrite view_of_length, F. rewrite map_map.
+  rewrite <- all_some_map_some. f_equal. apply map_ext_in. intros i Hi.
+  rewrite forallb_forall in F. specialize (F i Hi). apply Nat.ltb_lt in F.
+  destruct (view_of_spec d) as [V _].
+  assert (E : nth i (map (view_get d) (view_of d)) None = nth i (map Some (elems d)) None) by (rewrite V; reflexivity).
+  rewrite (nth_indep _ None (view_get d (0, 0, 0))) in E by (rewrite map_length, view_of_length; exact F).
+  rewrite map_nth in E. rewrite E.
+  rewrite (nth_indep _ None (Some dflt)) by (rewrite map_length; exact F). apply map_nth.
+Qed.
+
+Lemma build_set_spec (d : @data A) bs order :
+  forallb (fun i => i <? nelems d) order = true ->
+  build_set d (chunk bs order) = Some (regroup dflt order bs d).
+Proof.
+  intros F. unfold build_set, regroup.
+  assert (G : forall pb, In pb (chunk bs order) -> sub_batch d pb = Some (map (fun i => nth i (elems d) dflt) pb)).
+  { intros pb Hp. apply sub_batch_spec. apply forallb_forall. intros i Hi.
+    rewrite forallb_forall in F. apply F.
+    assert (In i (elems (chunk bs order))) by (unfold elems; apply in_concat; eauto).
+    rewrite chunk_elems in H. eapply In_firstn'; eauto. }
+  rewrite (map_ext_in _ _ _ G). rewrite all_some_map_some. f_equal.
+  rewrite chunk_map. reflexivity.
+Qed.
+
+Lemma osz_pos m p s : In s (osz m p) -> 1 <= s.
+Proof.
+  unfold osz. destruct (opt_sizes p m) as [l|] eqn:E; [|intros []]. intros H.
+  destruct (opt_sizes_spec _ _ _ E) as (_ & B & _). apply B. exact H.
+Qed.
+
+(* the construction loop + subBatch + CVFolds(set, partitionStart) build the fold object of the list model *)
+Theorem cv_by_loop_spec steps psizes k m (d : @data A) starts bs :
+  batch_partitioning psizes m 0 = Some (starts, bs) -> length psizes = k ->
+  (forall sp, In sp steps -> snd sp < k /\ fst sp < nelems d) ->
+  (forall p, p < k -> count_eq (map snd steps) p = nth p psizes 0) ->
+  let order := flat_map (fun p => map fst (filter (fun sp => snd sp =? p) steps)) (seq 0 k) in
+  cv_by_loop steps psizes k m d =
+  Some (mkCV (regroup dflt order bs d) (folds_from_starts starts (length (regroup dflt order bs d)))).
+Proof.
+  intros BP Lk B C order. unfold cv_by_loop. rewrite BP.
+  destruct (bp_explicit _ _ _ _ _ BP) as (E1 & E2 & E3).
+  set (bszs := map (osz m) psizes).
+  assert (Lb : length bszs = k) by (unfold bszs; rewrite map_length; exact Lk).
+  assert (Nb : forall p, nth p bszs [] = osz m (nth p psizes 0)).
+  { intros p. unfold bszs. destruct (Nat.lt_ge_cases p (length psizes)).
+    - rewrite (nth_indep _ [] (osz m 0)) by (rewrite map_length; auto). apply map_nth.
+    - rewrite !nth_overflow by (rewrite ?map_length; auto). symmetry. apply osz_0. }
+  assert (N : newset (cv_loop bs starts k steps) = chunk bs order).
+  { rewrite E1, E2. replace (map (fun p => length (osz m p)) psizes) with (map (@length nat) bszs) by (unfold bszs; rewrite map_map; reflexivity).
+    fold bszs. unfold order. rewrite <- Lb. apply cv_loop_newset.
+    - intros p s Hs. rewrite Nb in Hs. eapply osz_pos; eauto.
+    - intros sp Hs. rewrite Lb. apply B. exact Hs.
+    - intros p Hp. rewrite Lb in Hp. rewrite C by exact Hp. rewrite Nb. symmetry. apply E3. apply nth_In. lia. }
+  rewrite N. rewrite build_set_spec; [reflexivity|].
+  apply forallb_forall. intros i Hi. unfold order in Hi. apply in_flat_map in Hi. destruct Hi as [p [_ Hi]].
+  apply in_map_iff in Hi. destruct Hi as [sp [<- Hs]]. apply filter_In in Hs. destruct Hs as [Hs _].
+  apply Nat.ltb_lt. apply B. exact Hs.
+Qed.
+
+Lemma nth_map_count idx k p : p < k -> nth p (map (count_eq idx) (seq 0 k)) 0 = count_eq idx p.
+Proof. intros H. exact (nth_map_seq (count_eq idx) k p 0 H). Qed.
+
+Lemma map_snd_combine {X Y} (a : list X) (b : list Y) : length a = length b -> map snd (combine a b) = b.
+Proof. revert b; induction a as [|x a IH]; intros [|y b] L; simpl in *; try discriminate; auto. f_equal. apply IH. lia. Qed.
+
+Lemma in_combine_both {X Y} (a : list X) (b : list Y) x y : In (x, y) (combine a b) -> In x a /\ In y b.
+Proof. intros H. split; [eapply in_combine_l|eapply in_combine_r]; eauto. Qed.
+
+Theorem cv_indexed_loop_correct idx k m (d : @data A) : cv_indexed_loop idx k m d = cv_indexed dflt idx k m d.
+Proof.
+  unfold cv_indexed_loop, cv_indexed.
+  destruct (negb (length idx =? nelems d) || negb (forallb (fun i => i <? k) idx)) eqn:G; [reflexivity|].
+  apply orb_false_elim in G. destruct G as [G1 G2]. apply negb_false_iff in G1, G2. apply Nat.eqb_eq in G1.
+  destruct (batch_partitioning (map (count_eq idx) (seq 0 k)) m 0) as [[starts bs]|] eqn:BP.
+  - rewrite (cv_by_loop_spec _ _ k m d starts bs BP).
+    + rewrite order_indexed. reflexivity.
+    + rewrite map_length, seq_length. reflexivity.
+    + intros [src p] Hs. unfold steps_indexed in Hs. apply in_combine_both in Hs. destruct Hs as [H1 H2]. simpl.
+      apply in_seq in H1. rewrite forallb_forall in G2. specialize (G2 p H2). apply Nat.ltb_lt in G2. lia.
+    + intros p Hp. rewrite nth_map_count by exact Hp. unfold steps_indexed. rewrite map_snd_combine by apply seq_length. reflexivity.
+  - unfold cv_by_loop. rewrite BP. reflexivity.
+Qed.
+
+Theorem cv_fully_indexed_loop_correct first second k m (d : @data A) :
+  cv_fully_indexed_loop first second k m d = cv_fully_indexed dflt first second k m d.
+Proof.
+  unfold cv_fully_indexed_loop, cv_fully_indexed.
+  match goal with |- (if ?c then _ else _) = _ => destruct c eqn:G; [reflexivity|] end.
+  apply orb_false_elim in G. destruct G as [G G4]. apply orb_false_elim in G. destruct G as [G G3].
+  apply orb_false_elim in G. destruct G as [G1 G2]. apply negb_false_iff in G1, G2, G3, G4.
+  apply Nat.eqb_eq in G1, G2.
+  destruct (batch_partitioning (map (count_eq second) (seq 0 k)) m 0) as [[starts bs]|] eqn:BP.
+  - rewrite (cv_by_loop_spec _ _ k m d starts bs BP).
+    + rewrite order_fully by congruence. reflexivity.
+    + rewrite map_length, seq_length. reflexivity.
+    + intros [src p] Hs. unfold steps_fully in Hs. apply in_combine_both in Hs. destruct Hs as [H1 H2]. simpl.
+      rewrite forallb_forall in G3, G4. specialize (G3 p H2). specialize (G4 src H1). apply Nat.ltb_lt in G3, G4. lia.
+    + intros p Hp. rewrite nth_map_count by exact Hp. unfold steps_fully. rewrite map_snd_combine by congruence. reflexivity.
+  - unfold cv_by_loop. rewrite BP. reflexivity.
+Qed.
+
+Theorem cv_balanced_loop_correct members k m (d : @data A) :
+  cv_balanced_loop members k m d = cv_balanced dflt members k m d.
+Proof.
+  unfold cv_balanced_loop, cv_balanced. set (s := concat members).
+  match goal with |- (if ?c then _ else _) = _ => destruct c eqn:G; [reflexivity|] end.
+  apply orb_false_elim in G. destruct G as [G G3]. apply orb_false_elim in G. destruct G as [G1 G2].
+  apply Nat.eqb_neq in G1. apply negb_false_iff in G2, G3. apply Nat.eqb_eq in G2.
+  destruct (batch_partitioning (val_sizes (nelems d) k) m 0) as [[starts bs]|] eqn:BP.
+  - rewrite (cv_by_loop_spec _ _ k m d starts bs BP).
+    + rewrite order_balanced. reflexivity.
+    + unfold val_sizes. rewrite map_length, seq_length. reflexivity.
+    + intros [src p] Hs. unfold steps_balanced in Hs. fold s in Hs. apply in_combine_both in Hs. destruct Hs as [H1 H2]. simpl.
+      rewrite forallb_forall in G3. specialize (G3 src H1). apply Nat.ltb_lt in G3. split; [|exact G3].
+      apply in_map_iff in H2. destruct H2 as [t [<- _]]. apply Nat.mod_upper_bound. exact G1.
+    + intros p Hp. unfold steps_balanced. fold s. rewrite map_snd_combine by (rewrite map_length, seq_length; reflexivity).
+      rewrite (val_sizes_deal (nelems d) k s) by (auto; lia).
+      rewrite (nth_map_seq (fun p => length (deal k p 0 s)) k p 0 Hp). rewrite deal_length. unfold cnt, count_eq.
+      rewrite filter_map_length. f_equal. apply filter_ext. intros t. apply Nat.eqb_sym.
+  - unfold cv_by_loop. rewrite BP. reflexivity.
+Qed.
+
+(* every constructor: the loop-built fold object is the one of cv_create (all theorems of Properties_C12 apply to it) *)
+Theorem cv_create_loop_correct req (d : @data A) : cv_create_loop dflt req d = cv_create dflt req d.
+Proof.
+  destruct req; cbn [cv_create_loop cv_create]; auto.
+  - apply cv_indexed_loop_correct.
+  - apply cv_fully_indexed_loop_correct.
+  - apply cv_balanced_loop_correct.
+  - unfold cv_iid. apply cv_indexed_loop_correct.
+Qed.
+
+Theorem training_sd_correct (c : @cv A) p : training_sd c p = training c p.
+Proof. unfold training_sd, training. rewrite complement_sd_correct. reflexivity. Qed.
+
+Context {S : Type}.
+Theorem scv_create_loop_correct req (x : sdata A S) : scv_create_loop dflt req x = scv_create dflt req x.
+Proof. unfold scv_create_loop, scv_create. rewrite cv_create_loop_correct. reflexivity. Qed.
+
+Theorem s_training_sd_correct (c : scv A S) p : s_training_sd c p = s_training c p.
+Proof. unfold s_training_sd, s_training. rewrite complement_sd_correct. reflexivity. Qed.
+
+End Poly.
